@@ -754,6 +754,9 @@ class EDACScheme(Scheme):
         if self.inviscid_solids:
             TVF_SOLID_PROPS += ['xn', 'yn', 'zn', 'uhat', 'vhat', 'what']
         extra_props = TVF_SOLID_PROPS if self.use_tvf else EDAC_SOLID_PROPS
+        if self.inviscid_solids and not self.use_tvf:
+            # NoSlipVelocityExtrapolation reads the wall normals.
+            extra_props = list(extra_props) + ['xn', 'yn', 'zn']
         all_solid_props = DEFAULT_PROPS.union(extra_props)
         for solid in (self.solids+self.inviscid_solids):
             pa = particle_arrays[solid]
